@@ -273,7 +273,7 @@ def build_matchexpr(spec: dict, sections: dict, log: list, twin: bool = False):
     return text, origins, info
 
 
-def build_matcharm(spec: dict, sections: dict, log: list, twin: bool = False):
+def build_matcharm(spec: dict, sections: dict, log: list, twin: bool = False, substs=()):
     """kind=matcharm: the block of the match arm whose pattern starts with `first=` inside function `fn=` is extracted
     and wrapped as `pub fn <as>(<params>) <contract> BLOCK`. The block is the repository's bytes, with the listed rewrites
     (R15, and `//@replace_let NAME EXPR` = R18: the initializer of `let NAME = ..;` replaced by an assumed-contract call;
@@ -338,6 +338,18 @@ def build_matcharm(spec: dict, sections: dict, log: list, twin: bool = False):
         _rewrite_r15(it, edits, applied, relfile, o, c)
     if 'R19' in rewrites:
         _rewrite_r19(it, edits, applied, relfile, o, c)
+    if 'R12' in rewrites:
+        _rewrite_r12(it, rewrites, edits, applied, relfile, o, c)
+    for a, b in substs:
+        pat = [t.text for t in rsx.tokenize(a)]
+        q = o
+        while q <= c - len(pat) + 1:
+            if [t.text for t in toks[q:q + len(pat)]] == pat and not any(e.start <= toks[q].start < e.end for e in edits):
+                edits.append(Edit(toks[q].start, toks[q + len(pat) - 1].end, b, 'subst'))
+                applied.append(f'subst {relfile}:{it.line_of(toks[q].start)}: `{a}` -> `{b}`')
+                q += len(pat)
+            else:
+                q += 1
     edits = [e for e in edits if not any(f is not e and f.start <= e.start and e.end <= f.end and (f.end - f.start) > (e.end - e.start) for f in edits)]
     body, borg = rsx.apply_edits(src, toks[o].start, toks[c].end, edits)
     name = spec['as'] + ('__canary' if twin else '')
@@ -372,7 +384,7 @@ def build_item(spec: dict, sections: dict, substs: list, defines: set, log: list
     if spec.get('kind') == 'matchexpr':
         return build_matchexpr(spec, sections, log, twin)
     if spec.get('kind') == 'matcharm':
-        return build_matcharm(spec, sections, log, twin)
+        return build_matcharm(spec, sections, log, twin, substs)
     relfile = spec['file']
     try:
         src = read_repo(relfile)
